@@ -15,6 +15,9 @@ import (
 var batchSizes = []int{0, 1, 2, 3, 4, 4, 5, 6, 7, 8, 9, 12, 16, 17, 31, 32, 33, 48, 63, 64, 64, 65, 66, 67, 68, 69, 70, 96, 127, 128, 129, 130, 131, 132, 150, 191, 192, 193, 200}
 
 func genSize(r *Rng, thoroughMax int) int {
+	if thoroughMax >= 200 && r.Chance(1, 250) {
+		return r.Range(1025, 1100) // a template, a counter or an index type may run out around 1024
+	}
 	switch r.Pick(6, 3, 1) {
 	case 0:
 		return batchSizes[r.Intn(len(batchSizes))]
@@ -167,7 +170,30 @@ func genEntries(r *Rng, n int, o Opt) (es []Entry, profile string) {
 		b.Key, b.ML = es[i].Key, es[i].ML
 		es[i] = b
 	}
-	switch r.Pick(7, 5, 3, 2, 2, 1, 2, 1, 1) {
+	switch r.Pick(7, 5, 3, 2, 2, 1, 2, 1, 1, 1) {
+	case 9:
+		// one whole chunk-sized window made of the SAME kind of forgery (each
+		// satisfies the equation with one term removed): if that term has
+		// dropped out of the equation for this chunk, nothing in it objects
+		profile = "uniformbad"
+		k := []string{"noR", "noA", "noRB", "torR", "smRv", "tor0", "pfx", "lK", "sL", "noR"}[r.Intn(10)]
+		lo, hi := 0, n
+		if n > 64 && r.Chance(3, 4) {
+			lo = 64 * (1 + r.Intn(n/64))
+			if lo >= n {
+				lo = 64
+			}
+			hi = lo + 64
+			if hi > n {
+				hi = n
+			}
+			if hi-lo < 4 && lo >= 64 {
+				lo -= 64
+			}
+		}
+		for i := lo; i < hi; i++ {
+			es[i] = Entry{K: k, P: r.Intn(1 << 16), Q: r.Intn(1<<16) &^ 1, Key: es[i].Key, ML: es[i].ML}
+		}
 	case 8:
 		// exactly as many up-front rejections (S >= L) in the first chunk as
 		// the LAST chunk has entries, and a bad entry in that last chunk:
